@@ -290,8 +290,19 @@ func runC13(tier string, r *rng) {
 	}
 	if line := os.Getenv("VERIF_REPLAY_CASE"); line != "" {
 		kv := kvOf(line)
+		if kv["kind"] == "allblocked" {
+			n, _ := strconv.Atoi(kv["n"])
+			e.c13AllBlocked(kv["op"], n)
+			return
+		}
 		e.c13Case(kv["op"], strings.Split(kv["answers"], ","), atoiList(kv["order"]))
 		return
+	}
+	// every trusted peer has been blocked by the client itself (they served a bad range earlier)
+	for _, op := range []string{"get", "byheight"} {
+		for _, n := range []int{1, 2} {
+			e.c13AllBlocked(op, n)
+		}
 	}
 	// every single answer, both operations
 	for _, op := range []string{"get", "byheight"} {
@@ -323,4 +334,56 @@ func runC13(tier string, r *rng) {
 		ps := perms(n)
 		e.c13Case([]string{"get", "byheight"}[r.intn(2)], ans, ps[r.intn(len(ps))])
 	}
+}
+
+// c13AllBlocked: the trusted peers answer a RANGE request with a forged header, for which the client blocks them in its
+// connection gater. A Get / GetByHeight afterwards finds every trusted peer blocked: it returns an error (or what a peer
+// still serves), never a zero header with a nil error, and it does not panic.
+func (e *p2pEnv) c13AllBlocked(op string, n int) {
+	ids := make([]peer.ID, n)
+	for i := 0; i < n; i++ {
+		e.peers[i].Reset(false, func(_ int, req *p2p_pb.HeaderRequest) peers.Reply {
+			if req.GetHash() == nil && req.Amount > 1 {
+				return e.rangeReply("forged:0", req.GetOrigin(), req.Amount, 100)
+			}
+			return e.getReply("valid")
+		})
+		ids[i] = e.hosts[i+1].ID()
+	}
+	ex := e.client(ids, 0, 250*time.Millisecond)
+	ex.VerifSetTrackedPeers(ids...)
+	rctx, rcancel := context.WithTimeout(context.Background(), 600*time.Millisecond)
+	_, rerr := ex.GetRangeByHeight(rctx, e.chain[4], 9)
+	rcancel()
+	ctx, cancel := context.WithTimeout(context.Background(), 2*time.Second)
+	r, ec := "zero", "nil"
+	func() {
+		defer func() {
+			if p := recover(); p != nil {
+				ec = "CRASH"
+			}
+		}()
+		var h *vhdr.Header
+		var err error
+		if op == "get" {
+			h, err = ex.Get(ctx, e.chain[59].Hash())
+		} else {
+			h, err = ex.GetByHeight(ctx, 60)
+		}
+		if h != nil {
+			r = "other"
+			if sameHeader(h, e.chain[59]) {
+				r = "valid"
+			}
+		}
+		if err != nil {
+			ec = "err"
+		}
+	}()
+	cancel()
+	for i := 0; i < n; i++ {
+		e.peers[i].Reset(false, nil)
+	}
+	_ = ex.Stop(context.Background())
+	emit("C13 op=%s kind=allblocked n=%d range=%s answers=valid order=0 => hdr=%s err=%s", op, n, errs(rerr), r, ec)
 }
